@@ -137,7 +137,9 @@ def cases(draw):
         key = [draw(st.sampled_from([0, 1, 2, "k", -3])) for _ in params]
         extra.append(["set_value", gen._jsid(sid), n, key, draw(st.sampled_from([5, "text", 2.5, -1]))])
     rewrite = draw(st.sampled_from([None, None, {"backup": True}, {"backup": False}]))
-    return {"ops": ops + extra, "zip": use_zip, "chain": chain, "rewrite": rewrite}
+    opts = {"log_input": draw(st.integers(0, 3)) == 0,
+            "compression": draw(st.sampled_from(["deflated", "deflated", "stored"]))}
+    return {"ops": ops + extra, "zip": use_zip, "chain": chain, "rewrite": rewrite, "opts": opts}
 
 
 def strategy(tier):
@@ -200,11 +202,15 @@ def _run(case, out, root):
         before = model_desc(cur.m)
         held_before = cur.held()
         path = os.path.join(root, "m%d" % gen_i + (".zip" if case.get("zip") else ""))
+        opts = case.get("opts") or {}
+        zkw = {"log_input": bool(opts.get("log_input")),
+               "compression": zipfile.ZIP_STORED if opts.get("compression") == "stored" else zipfile.ZIP_DEFLATED}
+        wkw = {"log_input": bool(opts.get("log_input"))}
         try:
             if case.get("zip"):
-                cur.m.zip(path)
+                cur.m.zip(path, **zkw)
             else:
-                cur.m.write(path)
+                cur.m.write(path, **wkw)
         except Exception as exc:
             # a rejected save: C14's business (no residue); nothing to compare here
             out.label("write_rejected:" + type(exc).__name__)
@@ -222,9 +228,9 @@ def _run(case, out, root):
         saved_path = cur.m.path
         try:
             if case.get("zip"):
-                cur.m.write(other)
+                cur.m.write(other, **wkw)
             else:
-                cur.m.zip(other)
+                cur.m.zip(other, **zkw)
         except Exception as exc:
             return out.fail("other-format-rejected", "one container format accepted the model, the other raised %r" % (exc,))
         zpath, dpath = (path, other) if case.get("zip") else (other, path)
